@@ -141,7 +141,9 @@ def run_tlc(module, cfg, env=None, workers=None, timeout=3600, simulate=None, ex
     workers = workers or NCPU
     scratch = tempfile.mkdtemp(prefix="verif_tlc_")
     out = os.path.join(scratch, "stdout.txt")
-    cmd = ["java", "-XX:+UseParallelGC", "-XX:ParallelGCThreads=4", "-Xms2g", "-Xmx12g", "-Xss32m"] + (jvm or []) + ["-cp", TLA_CP, "tlc2.TLC",
+    os.makedirs(os.path.join(scratch, "jtmp"), exist_ok=True)
+    cmd = ["java", "-XX:+UseParallelGC", "-XX:ParallelGCThreads=4", "-Xms2g", "-Xmx12g", "-Xss32m",
+           "-Djava.io.tmpdir=" + os.path.join(scratch, "jtmp")] + (jvm or []) + ["-cp", TLA_CP, "tlc2.TLC",
            "-workers", str(workers), "-metadir", os.path.join(scratch, "meta"), "-noGenerateSpecTE",
            "-config", cfg]
     if coverage:
